@@ -4,6 +4,7 @@
 -/
 import TvFs.Proofs.StepX
 import TvFs.Proofs.CommittedSpec
+import TvFs.Proofs.CrashTree
 
 namespace TV.Fs
 
@@ -235,6 +236,28 @@ theorem flat_statesX : ∀ (h : List Op) (st : St) (sp : Spec), RX st sp.l → D
     simp only [quiet, List.map_cons, runStFx, sRunSt]
     exact ih _ _ hR' hD' (by simpa [flatRunC] using hfr)
 
+theorem attachedTo_single (dd : List Path) (n : Nat) : attachedTo dd [n] = true := rfl
+
+theorem forget_synced_single (s : Fs) (n : Nat) :
+    (forgetUnreachable s).synced.contains [n] = s.synced.contains [n] := by
+  rw [forget_synced_contains, attachedTo_single, Bool.and_true]
+
+/-- the durable relation speaks about root-level names only, and those are never unreachable -/
+theorem D.forget {fs : Fs} {l : Live} {dur : List (Nat × Bytes)} {dents : List ((Nat × Nat) × Ent)}
+    (h : D fs l dur dents) : D (forgetUnreachable fs) l dur dents :=
+  { sync := fun n id hp => by rw [forget_synced_single]; exact h.sync n id hp
+    cont := h.cont
+    pers := fun n hp => by rw [forget_synced_single] at hp; exact h.pers n hp
+    junk := h.junk
+    keys0 := h.keys0
+    dfiles := h.dfiles
+    slive := fun n hp => by rw [forget_synced_single] at hp; exact h.slive n hp
+    cf := fun n hp => by rw [forget_synced_single]; exact h.cf n hp
+    durFresh := h.durFresh
+    nocd := h.nocd
+    rootOnly := h.rootOnly
+    flat := h.flat }
+
 /-- `C07_partial` on the model of the committed code -/
 theorem c07_partial_committedX (h : List Op) (hf : flatRunC h = true) (ora : Ora) (n : Nat) :
     viewOfFx fxc (runStFx fxc {} St.init (quiet h ++ [(Op.crash, ora)])).fs [n] =
@@ -242,13 +265,14 @@ theorem c07_partial_committedX (h : List Op) (hf : flatRunC h = true) (ora : Ora
   obtain ⟨_, hD⟩ := flat_statesX h St.init Spec.init RX_init D_init hf
   rw [runStFx_append, sRunStFx_append]
   rw [flat_spec_states h Spec.init rfl idsBelow_init hf]
-  -- the crash step is the same on both models; after it the log is empty
-  show viewOfFx fxc (crash (runStFx fxc {} St.init (quiet h)).fs none ora.torn) [n] =
+  -- the crash step: the repaired crash first forgets unreachable names (none at the root), then it is
+  -- the same on both models; after it the log is empty
+  show viewOfFx fxc (crash (forgetUnreachable (runStFx fxc {} St.init (quiet h)).fs) none ora.torn) [n] =
     sView (sCrash (sRunSt {} Spec.init (quiet h)) none ora.torn).l [n]
-  have hv : viewOfFx fxc (crash (runStFx fxc {} St.init (quiet h)).fs none ora.torn) [n] =
-      viewOf (crash (runStFx fxc {} St.init (quiet h)).fs none ora.torn) [n] :=
+  have hv : viewOfFx fxc (crash (forgetUnreachable (runStFx fxc {} St.init (quiet h)).fs) none ora.torn) [n] =
+      viewOf (crash (forgetUnreachable (runStFx fxc {} St.init (quiet h)).fs) none ora.torn) [n] :=
     viewOfFx_c (s := crash _ none ora.torn) NoRN.nil (fun _ => trivial) [n]
   rw [hv]
-  exact crash_view hD ora.torn ora.torn n
+  exact crash_view hD.forget ora.torn ora.torn n
 
 end TV.Fs
